@@ -80,3 +80,29 @@ Proof. vm_compute. repeat split; reflexivity. Qed.
 
 Print Assumptions C01_rebuild_prefix_stable.
 Print Assumptions C01_rows_rebuilt_are_live_rows.
+
+(* ---------- ANY CONFIGURATION (Proofs/Tcfg*.v): the same statement for arbitrary codec suffixes [c_csuf c], [c_esuf c]
+   (any byte strings) and arbitrary encoded sizes.  No hypothesis replaces the plain configuration: the writers add the
+   suffix iff the encoded size is positive, the indexer strips it iff the tape size is positive, and the whole run under c is
+   the run under [plain_of c] on the tape with the indexed names ([C01_run_any_config]). *)
+From STFS Require Import TcfgSim TcfgHist TcfgThms.
+
+Theorem C01_rows_rebuilt_are_live_rows_any_config : forall c e r,
+  (0 < c_rs c)%N -> c_readonly c = false ->
+  forallb hb_ok ((CInitialize [slash], e) :: r) = true ->
+  safe true r = true ->
+  forallb (fun ke => rename_ok (fst ke)) r = true ->
+  forallb (fun ke => fs_call (fst ke)) r = true ->
+  let s := final c init_sys ((CInitialize [slash], e) :: r) in
+  exists p, rebuild c (tp s) = (p, Ok tt) /\ rows p = map norm_row (rows (db s)).
+Proof. exact C01_rows_norm_any_config. Qed.
+
+(* the observations of a run (outcomes, index rows, visible tree, tape length) do not depend on the codec suffixes *)
+Theorem C01_run_any_config : forall c h, run c init_sys h = run (plain_of c) init_sys h.
+Proof. exact run_config_independent. Qed.
+
+Theorem C01_rebuild_any_config : forall c t, rebuild (plain_of c) (efft c t) = rebuild c t.
+Proof. exact rebuild_eff. Qed.
+
+Print Assumptions C01_rows_rebuilt_are_live_rows_any_config.
+Print Assumptions C01_run_any_config.
